@@ -952,18 +952,9 @@ func (c *callable) Value(env *env) reflect.Value {
 		err := nvm.runFunc(fn, vars)
 		if err != nil {
 			if p, ok := err.(*PanicError); ok {
-				var msg string
-				for ; p != nil; p = p.next {
-					msg = "\n" + msg
-					if p.recovered {
-						msg = " [recovered]" + msg
-					}
-					msg = p.String() + msg
-					if p.next != nil {
-						msg = "\tpanic: " + msg
-					}
-				}
-				err = &fatalError{msg: msg}
+				// The function has panicked: the caller panics with the
+				// same value, so that it can be recovered as in Go.
+				panic(p.message)
 			}
 			panic(err)
 		}
